@@ -1,5 +1,95 @@
 import ZoektModel.Basic.Proto
+import ZoektModel.C03.Spec
+import ZoektModel.C03.Render
+import ZoektModel.C02.Model
 namespace ZoektModel.C03
-/-- stub: no model driver for C03 yet -/
-def main : IO Unit := ZoektModel.Proto.runLines (fun _ => ZoektModel.Proto.badCase "no model driver for C03")
+open ZoektModel ZoektModel.Proto
+
+def mkNewlines (locs : List Nat) (fileSize : Nat) : Newlines := ⟨locs, fileSize⟩
+
+def showChunkC (c : Chunk) : String := s!"{c.firstLine}.{c.lastLine}.{c.minOff}.{c.maxOff}:" ++ "+".intercalate (c.cands.map showCand)
+
+/-- parse `a.b,a.b,…` pairs -/
+def parsePairs (s : String) : Option (List (Nat × Nat)) :=
+  if s == "-" then some [] else
+  (s.splitOn ",").mapM fun e =>
+    match e.splitOn "." with
+    | [a, b] => do pure (← a.toNat?, ← b.toNat?)
+    | _ => none
+
+def colRun (data : Bytes) : ColSt → List (Nat × Nat) → List Nat
+  | _, [] => []
+  | st, (lo, o) :: r => let (st', c) := colGet data st lo o; c :: colRun data st' r
+
+/-- the verdict of the C03 statement on the implementation's reported output -/
+def verdictLines (data name : Bytes) (ctx : Nat) (impl : String) (model : String) : String :=
+  if impl == "PANIC" then specFail model "panic" else
+  match parseLines impl with
+  | none => badCase "impl lines"
+  | some lms => if checkLines data name ctx lms then answer model else specFail model "lines"
+
+def verdictChunks (data name : Bytes) (impl : String) (model : String) : String :=
+  if impl == "PANIC" then specFail model "panic" else
+  match parseChunks impl with
+  | none => badCase "impl chunks"
+  | some cms => if checkChunks data name cms then answer model else specFail model "chunks"
+
+def handle (line : String) : String :=
+  let (inp, impl) := splitCase line
+  match fields inp with
+  -- nl <locs> <fileSize> <dataHex> <offs> <lines> : atOffset of each off; lineStart of each line; range→lines of
+  -- consecutive off pairs; getLines for consecutive line pairs
+  | ["nl", locs, fs, dataHex, offs, lns] =>
+    match natList? locs, fs.toNat?, hexToBytes? dataHex, natList? offs, intList? lns with
+    | some locs, some fs, some data, some offs, some lns =>
+      let nls := mkNewlines locs fs
+      let ats := offs.map (atOffset nls)
+      let ls := lns.map (lineStart nls)
+      let rl := (offs.zip (offs.drop 1)).map fun (a, b) =>
+        let (x, y) := offsetRangeToLineRange nls a b; s!"{x}.{y}"
+      let gl := (lns.zip (lns.drop 1)).map fun (a, b) => bytesToHex (getLines nls data a b)
+      let model := s!"at={showNatList ats} ls={showNatList ls} rl={showList id rl} gl={showList id gl}"
+      -- the statement on the implementation's output (the harness always sends the document's real newline table):
+      -- atOffset = 1 + newlines before the offset, lineStart = the scan of the specification
+      let wantAt := s!"at={showNatList (offs.map (lineOf data))}"
+      let wantLs := s!"ls={showNatList (lns.map fun l => lineStartSpec data l.toNat)}"
+      match fields impl with
+      | [a, l, _, _] =>
+        if locs != (Newlines.ofData data).locs || fs != data.length then answer model
+        else if a != wantAt then specFail model "atoffset"
+        else if l != wantLs then specFail model "linestart"
+        else answer model
+      | _ => badCase "impl nl"
+    | _, _, _, _, _ => badCase "nl fields"
+  -- chunk <locs> <fileSize> <ctx> <cands>
+  | ["chunk", locs, fs, ctx, cands] =>
+    match natList? locs, fs.toNat?, ctx.toNat?, parseCands cands with
+    | some locs, some fs, some ctx, some cands =>
+      let cs := chunkCandidates (mkNewlines locs fs) ctx cands
+      answer (if cs.isEmpty then "-" else "|".intercalate (cs.map showChunkC))
+    | _, _, _, _ => badCase "chunk fields"
+  -- col <dataHex> <lineOff.off,…>
+  | ["col", dataHex, qs] =>
+    match hexToBytes? dataHex, parsePairs qs with
+    | some data, some qs => answer (showNatList (colRun data {} qs))
+    | _, _ => badCase "col fields"
+  -- fill / e2e <mode> <ctx> <contentHex> <nameHex> <cands>: `fill` = fillMatches/fillChunkMatches on the given candidates,
+  -- `e2e` = gatherMatches first (the candidates are every atom's matches)
+  | [op, mode, ctx, dataHex, nameHex, cands] =>
+    if op != "fill" && op != "e2e" then badCase "op" else
+    match ctx.toNat?, hexToBytes? dataHex, hexToBytes? nameHex, parseCands cands with
+    | some ctx, some data, some name, some cands =>
+      let ms := if op == "e2e" then C02.gatherCands name cands else cands
+      if mode == "l" then
+        let model := match fillMatches data name ctx ms with
+          | none => "PANIC"
+          | some lms => showLines lms
+        verdictLines data name ctx impl model
+      else if mode == "c" then
+        verdictChunks data name impl (showChunks (fillChunkMatches data name ctx ms))
+      else badCase "mode"
+    | _, _, _, _ => badCase "fill fields"
+  | _ => badCase "op"
+
+def main : IO Unit := runLines handle
 end ZoektModel.C03
